@@ -37,6 +37,12 @@ def shapes():
                [('tuple', 2, 'Ru'), ('named', 2, 'uR')], [('named', 3, 'RuR'), ('tuple', 3, 'uuR'), ('unit', 0)],
                [('tuple', 2, 'uu'), ('tuple', 1, 'u')]]:
         out.append((True, vs))
+    # the same GENERIC field type several times (within a struct / variant and across variants): T is instantiated with
+    # the recording type, so every field must still get its own clone / clone_from
+    out.append((False, [('tuple', 2, 'TT')]))
+    out.append((False, [('named', 3, 'TuT')]))
+    out.append((True, [('tuple', 2, 'TT'), ('named', 2, 'TR'), ('unit', 0)]))
+    out.append((True, [('tuple', 1, 'T'), ('tuple', 1, 'T')]))
     out.append((False, [('tuple', 2, 'Ru')]))
     out.append((False, [('named', 3, 'uRu')]))
     return [(e, [v if len(v) == 3 else (v[0], v[1], 'R' * v[1]) for v in vs]) for e, vs in out]
@@ -44,14 +50,14 @@ def shapes():
 
 def fields_s(kind, n, pat=None):
     pat = pat or 'R' * n
-    fs = [sx.field(RT if pat[i] == 'R' else sx.tid('u8'), name=('f%d' % i) if kind == 'named' else None) for i in range(n)]
+    fs = [sx.field(RT if pat[i] == 'R' else sx.tid('T') if pat[i] == 'T' else sx.tid('u8'), name=('f%d' % i) if kind == 'named' else None) for i in range(n)]
     return sx.named(fs) if kind == 'named' else (sx.unnamed(fs) if kind == 'tuple' else sx.UNIT)
 
 
 def value_expr(is_enum, vi, kind, n, base, pat=None):
     pat = pat or 'R' * n
     path = ('E::V%d' % vi) if is_enum else 'X'
-    vals = [('Rc_(%d)' if pat[i] == 'R' else '%du8') % (base + i) for i in range(n)]
+    vals = [('Rc_(%d)' if pat[i] in 'RT' else '%du8') % (base + i) for i in range(n)]
     if kind == 'named':
         return '%s { %s }' % (path, ', '.join('f%d: %s' % (i, v) for i, v in enumerate(vals)))
     if kind == 'tuple':
@@ -81,20 +87,24 @@ class C07(Prop):
             for j, rp in enumerate(EREPRS[1:] if sh[0] else REPRS[1:]):
                 if sh[0] and not sh[1]:
                     continue          # no repr on an empty enum
+                if 'packed' in rp and any('T' in v[2] for v in sh[1]):
+                    continue          # a reference to a field of unknown alignment in a packed struct is the user's E0793
                 plans.append((sh, 'attr' if (k + j) % 2 else 'derive', ['Clone'], rp))
         for (is_enum, vs), mode, tnames, rp in plans:
             ia = [sx.a_other(rp)] if rp else []
+            generic = any('T' in v[2] for v in vs)
+            gen = sx.generics([sx.gp_ty('T')]) if generic else None
             if is_enum:
-                it = sx.enum('E', [sx.variant('V%d' % i, fields_s(k, n, pt)) for i, (k, n, pt) in enumerate(vs)], attrs=ia)
+                it = sx.enum('E', [sx.variant('V%d' % i, fields_s(k, n, pt)) for i, (k, n, pt) in enumerate(vs)], attrs=ia, gen=gen)
                 kw = '(enum ('
             else:
-                it = sx.struct('X', fields_s(*vs[0]), attrs=ia)
+                it = sx.struct('X', fields_s(*vs[0]), attrs=ia, gen=gen)
                 kw = '(struct ('
             tl = [(t, None) for t in tnames]
             req = sx.inv_attr(sx.dx(tl), it) if mode == 'attr' else sx.inv_derive(
                 kw + sx.a_derive_ex(sx.dx(tl)) + ' ' + it[len(kw):])
-            out.append((req, dict(features=('enum' if is_enum else 'struct', mode, '+'.join(tnames), rp or 'no-repr') + tuple('%s%d%s' % (v[0], v[1], v[2] if 'u' in v[2] else '') for v in vs),
-                                  enum=is_enum, vs=vs, nontrivial=any(v[1] for v in vs))))
+            out.append((req, dict(features=('enum' if is_enum else 'struct', mode, '+'.join(tnames), rp or 'no-repr') + tuple('%s%d%s' % (v[0], v[1], v[2] if ('u' in v[2] or 'T' in v[2]) else '') for v in vs),
+                                  enum=is_enum, vs=vs, generic=generic, nontrivial=any(v[1] for v in vs))))
         return out
 
     def view(self, r, parts):
@@ -106,7 +116,7 @@ class C07(Prop):
         for r in results:
             m = r.meta
             head = ('#[::derive_ex::derive_ex(%s)]\n' % r.attr) if r.mode == 'A' else '#[derive(::derive_ex::Ex)]\n'
-            ty = 'E' if m['enum'] else 'X'
+            ty = ('E' if m['enum'] else 'X') + ('<Rc_>' if m.get('generic') else '')
             src = [l2.decl('#[derive(Debug, PartialEq)]\n' + head, r.item, r.cid), 'pub fn run() {']
             exp = []
             vs = m['vs']
@@ -114,18 +124,18 @@ class C07(Prop):
                 a = value_expr(m['enum'], ai, ka, na, 1, pa)
                 src.append('    { let a: %s = %s; let _ = take_log(); let c = a.clone(); println!("%d\\tclone%d\\t{:?}\\t{}", c, take_log()); }'
                            % (ty, a, r.cid, ai))
-                exp.append(('clone%d' % ai, _dbg(m['enum'], ai, ka, [1 + i + (100 if pa[i] == 'R' else 0) for i in range(na)], pa),
-                            ','.join('clone:%d' % (1 + i) for i in range(na) if pa[i] == 'R')))
+                exp.append(('clone%d' % ai, _dbg(m['enum'], ai, ka, [1 + i + (100 if pa[i] in 'RT' else 0) for i in range(na)], pa),
+                            ','.join('clone:%d' % (1 + i) for i in range(na) if pa[i] in 'RT')))
                 for bi, (kb, nb, pb) in enumerate(vs):
                     b = value_expr(m['enum'], bi, kb, nb, 11, pb)
                     src.append('    { let mut a: %s = %s; let b: %s = %s; let _ = take_log(); a.clone_from(&b); '
                                'println!("%d\\tfrom%d_%d\\t{:?}\\t{:?}\\t{}", a, b, take_log()); }' % (ty, a, ty, b, r.cid, ai, bi))
                     if ai == bi:
-                        want_a = _dbg(m['enum'], ai, ka, [11 + i + (1000 if pa[i] == 'R' else 0) for i in range(na)], pa)
-                        log = ','.join('clone_from:%d<-%d' % (1 + i, 11 + i) for i in range(na) if pa[i] == 'R')
+                        want_a = _dbg(m['enum'], ai, ka, [11 + i + (1000 if pa[i] in 'RT' else 0) for i in range(na)], pa)
+                        log = ','.join('clone_from:%d<-%d' % (1 + i, 11 + i) for i in range(na) if pa[i] in 'RT')
                     else:
-                        want_a = _dbg(m['enum'], bi, kb, [11 + i + (100 if pb[i] == 'R' else 0) for i in range(nb)], pb)
-                        log = ','.join('clone:%d' % (11 + i) for i in range(nb) if pb[i] == 'R')
+                        want_a = _dbg(m['enum'], bi, kb, [11 + i + (100 if pb[i] in 'RT' else 0) for i in range(nb)], pb)
+                        log = ','.join('clone:%d' % (11 + i) for i in range(nb) if pb[i] in 'RT')
                     exp.append(('from%d_%d' % (ai, bi), want_a, _dbg(m['enum'], bi, kb, [11 + i for i in range(nb)], pb), log))
             src.append('}')
             expect[r.cid] = exp
@@ -162,7 +172,7 @@ def _dbg(is_enum, vi, kind, ids, pat=None):
     """Debug text of the std-derived Debug of the value"""
     pat = pat or 'R' * len(ids)
     name = ('V%d' % vi) if is_enum else 'X'
-    show = lambda i, x: ('Rc_(%d)' % x) if pat[i] == 'R' else str(x)
+    show = lambda i, x: ('Rc_(%d)' % x) if pat[i] in 'RT' else str(x)
     if kind == 'named':
         if not ids:
             return name
